@@ -427,13 +427,15 @@ class _FuncInline(SiteRewriter):
         return self._visit_function(self.func, None)
 
 
-def _lister(func: FuncDef, funcs: 'Iterable[Function] | None') -> '_FuncInline':
-    """The pass instance a listing walks `func` with."""
+def _lister(func: FuncDef, funcs: 'Iterable[Function] | None', recursive: bool) -> '_FuncInline':
+    """The pass instance a listing walks `func` with.  `recursive` decides what
+    would be spliced in for a call, and so which names it captures: a listing
+    is asked with the value the rewrite will get."""
     return _FuncInline(
         func,
         DefineUse.analyze(func),
         None if funcs is None else set(funcs),
-        recursive=False,
+        recursive=recursive,
     )
 
 
@@ -448,14 +450,16 @@ class FuncInline:
         within: Cursor | None = None,
         *,
         funcs: Iterable[Function] | None = None,
+        recursive: bool = True,
     ) -> list[Cursor]:
         """The call sites of `func` that would be inlined, in visit order --
-        what a `where` index counts.  `funcs` filters as for :meth:`apply`.
+        what a `where` index counts.  `funcs` filters and `recursive` flattens
+        as for :meth:`apply`.
 
         A call this pass refuses is not a site: it neither appears here nor
         takes an index.  :meth:`refusals` says why.
         """
-        return _lister(func, funcs).list_sites(within)
+        return _lister(func, funcs, recursive).list_sites(within)
 
     @staticmethod
     def refusals(
@@ -463,9 +467,10 @@ class FuncInline:
         within: Cursor | None = None,
         *,
         funcs: Iterable[Function] | None = None,
+        recursive: bool = True,
     ) -> list[tuple[Cursor, str]]:
         """Why each call of `func` that is not a site was refused."""
-        return _lister(func, funcs).list_refusals(within)
+        return _lister(func, funcs, recursive).list_refusals(within)
 
     @staticmethod
     def apply(
